@@ -1,7 +1,10 @@
 #!/bin/bash
 # tools_sweep.sh [tier] — run every registered check once, print one line each.
+# tools_sweep.sh [tier] [first-id] — start at first-id when given.
 T="${1:-quick}"
+FROM="${2:-C01}"
 for id in $(python3 -c "import json;print(' '.join(c['property_id'] for c in json.load(open('/verif/MANIFEST.json'))['checks']))"); do
+  [[ "$id" < "$FROM" ]] && continue
   s=$(date +%s)
   out=$(/verif/check.sh $id $T 2>&1); rc=$?
   echo "$id rc=$rc $(( $(date +%s)-s ))s $(echo "$out" | grep -E '^SUMMARY' | cut -c1-140) $(echo "$out" | grep -c '^VIOLATION') violations $(echo "$out" | grep -c '^KNOWN-FINDING') known"
